@@ -261,6 +261,7 @@ type Machine struct {
 	transferred map[int]bool
 	spawnLocal map[int]bool
 	assumingPre bool
+	entryLocks map[string]int
 	iterCut *loopCut // the cut of the loop whose iter clauses are being evaluated
 	guardedMaps map[int]bool
 	onlyProp  string // when set, only clauses tagged with this property are evaluated
